@@ -35,6 +35,8 @@ def _is_meta(name):
     return len(name) >= 2 and name[0] == '_' and name[1].isupper()
 
 
+DEFAULTS = {}        # (callable name, parameter) -> {dump of default}, (callable name, parameter, 'node') -> default expression
+SIGNATURES_ALL = {}  # callable name -> every signature (parameter name list) that name has in the analysed tree
 SIGNATURES = {}     # callable name -> parameter names (set by the driver from the analysed tree; unique names only)
 
 
@@ -47,10 +49,41 @@ def _callee_name(call):
     return None
 
 
-def _canonical_args(call):
+def _params_for(call):
+    '''parameters of the callee: a method called on self is looked up in the enclosing class (and its bases by name), any
+    other callee by its name when that name denotes one signature in the tree'''
+    f = call.func
+    if isinstance(f, ast.Attribute) and isinstance(f.value, ast.Name) and f.value.id in ('self', 'cls'):
+        cur = getattr(call, '_parent', None)
+        while cur is not None and not isinstance(cur, ast.ClassDef):
+            cur = getattr(cur, '_parent', None)
+        seen = set()
+        while isinstance(cur, ast.ClassDef) and cur.name not in seen:
+            seen.add(cur.name)
+            for c in cur.body:
+                if isinstance(c, ast.FunctionDef) and c.name == f.attr:
+                    a = c.args
+                    if a.vararg or a.kwarg or a.kwonlyargs:
+                        return None
+                    ps = [x.arg for x in a.posonlyargs + a.args]
+                    return ps[1:] if ps and ps[0] in ('self', 'cls') else ps
+            nxt = None
+            mod = getattr(cur, '_parent', None)
+            for b in cur.bases:
+                if isinstance(b, ast.Name) and isinstance(mod, ast.Module):
+                    for c in mod.body:
+                        if isinstance(c, ast.ClassDef) and c.name == b.id:
+                            nxt = c
+            cur = nxt
+        return None
+    return SIGNATURES.get(_callee_name(call))
+
+
+def _canonical_args(call, params=None):
     '''positional/keyword arguments of a call as one list in parameter order (None when the callee is unknown or the call
     cannot be aligned with its signature)'''
-    params = SIGNATURES.get(_callee_name(call))
+    if params is None:
+        params = _params_for(call)
     if params is None or any(isinstance(a, ast.Starred) for a in call.args) or any(k.arg is None for k in call.keywords):
         return None
     if len(call.args) > len(params):
@@ -60,6 +93,11 @@ def _canonical_args(call):
         if k.arg not in params or k.arg in out:
             return None
         out[k.arg] = k.value
+    # an omitted parameter has its default value (when the name has one default throughout the tree)
+    nm = _callee_name(call)
+    for p_ in params:
+        if p_ not in out and len(DEFAULTS.get((nm, p_), ())) == 1:
+            out[p_] = DEFAULTS[(nm, p_, 'node')]
     return out
 
 
@@ -67,18 +105,20 @@ def _match_call_by_signature(pat, node, env):
     '''f(a, y=b) matches f(a, b): the same arguments reach the same parameters'''
     if _callee_name(pat) != _callee_name(node) or _is_meta(_callee_name(pat) or ''):
         return False
-    pa, na = _canonical_args(pat), _canonical_args(node)
-    if pa is None or na is None or set(pa) != set(na):
-        return False
-    trial = dict(env)
-    if not _match(pat.func, node.func, trial):
-        return False
-    for k in pa:
-        if not _match(pa[k], na[k], trial):
-            return False
-    env.clear()
-    env.update(trial)
-    return True
+    params = _params_for(node)
+    cands = [params] if params is not None else list(SIGNATURES_ALL.get(_callee_name(node), []))
+    for params in cands:
+        pa, na = _canonical_args(pat, params), _canonical_args(node, params)
+        if pa is None or na is None or set(pa) != set(na):
+            continue
+        trial = dict(env)
+        if not _match(pat.func, node.func, trial):
+            continue
+        if all(_match(pa[k], na[k], trial) for k in pa):
+            env.clear()
+            env.update(trial)
+            return True
+    return False
 
 
 def _match(pat, node, env):
